@@ -303,6 +303,11 @@ func (e *Enc) run(known compSet) {
 		e.assert(And(Not(Eq(c, I(0))), Lt(I(0), e.root(c)), Lt(e.root(c), st0.hwm)))
 		e.vals[fv] = tv(c)
 	}
+	if e.hasGhost("panicking") {
+		// normal (non-exceptional) execution: no panic is in flight
+		e.compSort["X:panicking"] = SBool
+		e.assert(Not(e.comp(st0, "X:panicking", SBool)))
+	}
 	e.pre = st0
 	e.initTrace(st0)
 	e.assumeGlobalInvs(st0)
@@ -433,7 +438,7 @@ func (e *Enc) enterLoop(li *loopInfo, st *State) {
 	e.havoc(st, ms, "l")
 	e.assumeGlobalInvs(st)
 	// implicit loop invariant: the function's own frame (checked at every back edge)
-	for _, g := range e.frameGoals(st, nil) {
+	for _, g := range e.frameGoals(st, e.ownStoreTargets()) {
 		e.assume(st.reach, g.goal)
 	}
 	e.useLemmas(st)
@@ -448,6 +453,17 @@ func (e *Enc) enterLoop(li *loopInfo, st *State) {
 		e.assume(st.reach, t)
 	}
 	li.headSt = st.clone()
+	li.progress = nil
+	if li.spec != nil {
+		for _, cl := range li.spec.Progress {
+			t, _, err := sc.eval(cl.Expr)
+			if err != nil {
+				e.unsupported = fmt.Sprintf("loop %d progress %q: %v", li.ordinal, cl.Text, err)
+				return
+			}
+			li.progress = append(li.progress, e.def("progress", t.T))
+		}
+	}
 	li.variant = nil
 	for _, cl := range decs {
 		t, _, err := sc.eval(cl.Expr)
@@ -462,7 +478,7 @@ func (e *Enc) enterLoop(li *loopInfo, st *State) {
 func (e *Enc) backEdge(li *loopInfo, st *State) {
 	pr := e.autoProps()
 	if e.c != nil {
-		for _, g := range e.frameGoals(st, nil) {
+		for _, g := range e.frameGoals(st, e.ownStoreTargets()) {
 			e.oblige("frame", fmt.Sprintf("loop%d.modifies.%s", li.ordinal, g.name), e.c.Props, st.reach, g.goal, g.desc, blockPos(li.header))
 		}
 	}
@@ -479,6 +495,14 @@ func (e *Enc) backEdge(li *loopInfo, st *State) {
 			return
 		}
 		e.oblige("inv_keep", e.clauseAnchor(fmt.Sprintf("loop%d", li.ordinal), cl, i), clauseProps(cl, pr), st.reach, t, cl.Text, blockPos(li.header))
+	}
+	for i, cl := range li.spec.Progress {
+		t, _, err := sc.eval(cl.Expr)
+		if err != nil {
+			e.unsupported = fmt.Sprintf("loop %d progress %q: %v", li.ordinal, cl.Text, err)
+			return
+		}
+		e.oblige("progress", e.clauseAnchor(fmt.Sprintf("loop%d", li.ordinal), cl, i), clauseProps(cl, pr), st.reach, Gt(t.T, li.progress[i]), "every iteration increases "+cl.Text, blockPos(li.header))
 	}
 	for i, cl := range li.spec.Decreases {
 		t, _, err := sc.eval(cl.Expr)
@@ -1109,6 +1133,11 @@ func (e *Enc) typeAssert(st *State, ins *ssa.TypeAssert) {
 		v = e.unbox(app(SInt, "ival", x), ins.AssertedType)
 	}
 	okc := e.def(ins.Name()+"_ok", ok)
+	if isAstNodePtr(ins.AssertedType) {
+		// AST well-formedness (trees come from the parser): an interface never holds a typed-nil node pointer
+		e.noteAssumption("AST well-formedness: ast.Stmt/Expr/Operator interfaces never hold typed-nil node pointers")
+		e.assume(st.reach, Imp(okc, Not(Eq(v, I(0)))))
+	}
 	if ins.CommaOk {
 		r := e.def(ins.Name(), Ite(okc, v, e.zero(ins.AssertedType)))
 		e.assume(st.reach, Imp(okc, e.typeAssume(r, ins.AssertedType, st.hwm)))
@@ -1119,6 +1148,19 @@ func (e *Enc) typeAssert(st *State, ins *ssa.TypeAssert) {
 	r := e.def(ins.Name(), v)
 	e.assume(st.reach, e.typeAssume(r, ins.AssertedType, st.hwm))
 	e.vals[ins] = tv(r)
+}
+
+func isAstNodePtr(t types.Type) bool {
+	p, ok := t.(*types.Pointer)
+	if !ok {
+		return false
+	}
+	n, ok := p.Elem().(*types.Named)
+	if !ok || n.Obj().Pkg() == nil {
+		return false
+	}
+	_, isStruct := n.Underlying().(*types.Struct)
+	return isStruct && isAnkoPkg(n.Obj().Pkg()) && n.Obj().Pkg().Name() == "ast"
 }
 
 func (e *Enc) mapPresent(st *State, mt *types.Map, m, k Term) Term {
